@@ -15,7 +15,7 @@ RULE = ("one case = space-magnitude region (1..8 cells, 1..4 magnitude bins) x c
         "each, at least one non-empty; in memory or streamed from a written file) x observed catalog by class (empty, single event, events "
         "only in sampled cells, >= 1 event in a never-sampled cell, all events in never-sampled cells, many per cell, or event for event a copy of one synthetic catalog - half of these with 22..160 events whose per-bin counts c satisfy c / N * N != c in doubles). Checked: number, "
         "spatial, magnitude, pseudo-likelihood, resampled-magnitude and MLL tests (statistic, distribution, status, quantiles), calibration "
-        "test input. 1 case in 12 repeats its synthetic catalogs 10x/25x (up to 300 catalogs); 1 in 4 runs with verbose=True. Non-trivial = J >= 3 with an empty synthetic catalog and an observation of >= 2 events; distinct = canonical JSON.")
+        "test input. 1 case in 4 hands the magnitude tests an observation that another forecast's spatial / PL test rejected first (event outside the region). 1 case in 12 repeats its synthetic catalogs 10x/25x (up to 300 catalogs); 1 in 4 runs with verbose=True. Non-trivial = J >= 3 with an empty synthetic catalog and an observation of >= 2 events; distinct = canonical JSON.")
 ASSUMPTIONS = ["mean rates = per-cell mean of the synthetic catalogs' gridded counts; spatial rate = its magnitude marginal (no area normalisation), N-bar = its total",
                "magnitude statistics use log10 as implemented (the documentation writes 'log' without base)",
                "MLL statistic = +2*log(L(merged)/(L(union)L(catalog))) as in the MLL_score docstring",
